@@ -73,6 +73,8 @@ func Universe(r *rand.Rand, c Cfg, n int) []uint64 {
 		}
 	}
 	bf := uint64(c.BF)
+	// unsigned kinds: in one universe out of three, half of the keys lie at or above 2^63
+	wide := (c.KK == "u64" || c.KK == "uint") && r.Intn(3) == 0
 	for len(out) < n {
 		switch c.KK {
 		case "vk":
@@ -106,6 +108,12 @@ func Universe(r *rand.Rand, c Cfg, n int) []uint64 {
 			}
 			if r.Intn(50) == 0 {
 				v = 0
+			}
+			if wide && r.Intn(2) == 0 {
+				v += 1 << 63
+				if r.Intn(8) == 0 {
+					v = ^uint64(0) - uint64(r.Intn(4)) // the very top of the range
+				}
 			}
 			add(v)
 		case "i64", "int":
